@@ -364,3 +364,18 @@ Proof.
       unfold regularNameChar in Hreg. destruct (isDelimiter c); [rewrite andb_false_r in Hreg; discriminate|].
       split; [lia|reflexivity].
 Qed.
+
+(* ================================================================ combined statements *)
+
+Lemma literal_roundtrip (s rest : bytes) :
+  parseStringLiteral (40 :: Escape s ++ 41 :: rest) = Ok (Escape s, rest)
+  /\ Unescape (Escape s) = Ok s.
+Proof. split; [apply parse_escape | apply unescape_escape]. Qed.
+
+Lemma encode_name_charset_full (s : bytes) : bytes_ok s = true ->
+  nameWF (EncodeName s) = true
+  /\ Forall (fun c => 33 <= c <= 126 /\ isDelimiter c = false) (EncodeName s).
+Proof.
+  intros Hok. pose proof (encode_name_charset s Hok) as H.
+  split; [exact H | apply nameWF_bytes, H].
+Qed.
